@@ -75,15 +75,20 @@ PROPS = {
         undecided=['finiteness of the numerical tables'],
         assumptions=['trajectory time index strictly increasing (input precondition)']),
     'C06': dict(
-        rules=[meas.meas_guard, meas.meas_dep, meas.meas_shape, meas.meas_cols],
+        rules=[meas.meas_guard, meas.meas_dep, meas.meas_shape, meas.meas_cols,
+               meas.meas_jacobian],
         decided=['absent time returns None before any data access',
                  'every attribute the residual depends on reaches H (lever arm), under the same '
                  'condition', 'matching dimensions of z, H, R in both altitude modes',
-                 'residual is predicted minus measured', 'simulator/constructor column agreement'],
-        undecided=['numerical zero residual at the true state',
-                   'H entry-wise equal to the derivative (see H-JACOBIAN when built)']),
+                 'residual is predicted minus measured', 'simulator/constructor column agreement',
+                 'H is entry-wise the derivative of the residual with respect to the error state '
+                 'under correct_pva (symbolic, first order; all classes, both altitude modes, with '
+                 'and without lever arm / rates)'],
+        undecided=['numerical zero residual at the true state with simulated data',
+                   'second-order (lever/Earth-radius) terms of the position Jacobian']),
     'C02': dict(
-        rules=[kernel.row_rec, integrator.buf_rules, integrator.carrier, integrator.predict_eff],
+        rules=[kernel.row_rec, integrator.buf_rules, integrator.carrier, integrator.carrier_sync,
+               integrator.predict_eff],
         decided=['kernel writes stay inside the buffers for every chunking and capacity (linear '
                  'arithmetic proof on both paths of the capacity test)',
                  'all state carriers written together and with matching columns; set_pva writes '
